@@ -7,7 +7,9 @@ open Driver ScionTime.Sample ScionTime.Multipath
   rand.intn <n> <cancelled 0|1> <hexstream>          -> ok <v> <bytes consumed> | err <e> | panic <class>
   rand.sample <k> <n> <cancelled 0|1> <hexstream>     -> ok <k'> [d:s,...] <bytes consumed> | err <e> | panic <class>
   mp.round cs=[<m><r><i><fp>,...] ps=[<fp>,...] s=<hexstream> succ=[<off>|x,...]
-        -> ok off=<o> | err <e>   followed by  assign=[pos|-,...] reset=[0|1,...] probes=[n,...] used=<bytes>
+        -> ok off=<o> | err <e>   followed by  assign=[pos|-,...] reset=[0|1,...] probes=[n,...] used=<bytes> late=0
+        (late=1 on the implementation side: the round returned only because its context expired
+         although every participant had been answered — the model's round always finishes)
   fingerprints are tokens; `-` is the empty fingerprint.
   The driver runs the model of the *repaired* code (F11 and F12 repaired).
 -/
@@ -82,7 +84,7 @@ def step (_ : Unit) (toks : List String) : Unit × String :=
           | (.ok _ r, _) => s.length - r.length
           | (.errNoPath r, _) => s.length - r.length
           | _ => 0
-        let tail := s!" assign={fmtOptNats out.assigned} reset={fmtBools out.reset} probes={fmtNatList out.probes} used={used}"
+        let tail := s!" assign={fmtOptNats out.assigned} reset={fmtBools out.reset} probes={fmtNatList out.probes} used={used} late=0"
         match out.res with
         | .ok off => ((), s!"ok off={off}" ++ tail)
         | .errSample e => ((), s!"err sample:{errName e}" ++ tail)
